@@ -292,7 +292,7 @@ func (p *Program) addTypeNames(ms *modSet, t types.Type, fam string, depth int) 
 	case KStruct:
 		st := structOf(t)
 		for i := 0; i < st.NumFields(); i++ {
-			p.addTypeNames(ms, st.Field(i).Type(), fmt.Sprintf("F|%s|%d", typeKey(t), i), depth+1)
+			p.addTypeNames(ms, st.Field(i).Type(), fmt.Sprintf("F|%s|%d", structMemKey(t), i), depth+1)
 		}
 	case KArray:
 		et := t.Underlying().(*types.Array).Elem()
@@ -318,7 +318,7 @@ func (p *Program) addrNames(ms *modSet, addr ssa.Value, t types.Type) {
 	switch x := addr.(type) {
 	case *ssa.FieldAddr:
 		st := x.X.Type().Underlying().(*types.Pointer).Elem()
-		p.addTypeNames(ms, t, fmt.Sprintf("F|%s|%d", typeKey(st), x.Field), 0)
+		p.addTypeNames(ms, t, fmt.Sprintf("F|%s|%d", structMemKey(st), x.Field), 0)
 	case *ssa.IndexAddr:
 		if elemTwoLevel(t) {
 			ms.names[elemFam(t)] = arrSort(SBV64, arrSort(SBV64, p.W.scalarSort(t)))
